@@ -87,10 +87,10 @@ def gen_cases(tier, seed):
     step = 4 if tier == "quick" else 4
     for lo in range(1, Pmax + 1, step):
         cases.append({"kind": "box", "N": N, "P_lo": lo, "P_hi": min(Pmax, lo + step - 1), "cost": (lo + step) * N * N / 1000.0})
-    nrand = 24 if tier == "quick" else 200
+    nrand = 24 if tier == "quick" else 1000
     for k in range(nrand):
         cases.append({"kind": "random", "seed": seed * 1000003 + k, "n": 500 if tier == "quick" else 2000, "cost": 5})
-    nl = 40 if tier == "quick" else 400
+    nl = 40 if tier == "quick" else 1500
     for k in range(nl):
         cases.append({"kind": "layouts", "seed": seed * 7919 + k, "Pmax": 12 if tier == "quick" else 24, "cost": 8})
     for k in range(10 if tier == "quick" else 100):
